@@ -28,9 +28,9 @@ def check(prog, ctx):
     ctx.rule('C16.e', 'degenerate axes: every real zero of the divisor of the general branch within e3 in [-1,1] is excluded by the guards, and '
              'each excluded case returns a vector with the same three identities for that axis', 2)
     ctx.rule('C16.f', 'Angle is acos(v1.v2/(|v1||v2|))', 1)
-    rot(prog, ctx)
-    spherical(prog, ctx)
-    angle(prog, ctx)
+    ctx.sub('rot', rot, prog, ctx)
+    ctx.sub('spherical', spherical, prog, ctx)
+    ctx.sub('angle', angle, prog, ctx)
 
 
 def rot(prog, ctx):
